@@ -87,3 +87,28 @@ Qed.
 
 Theorem model_output_sorted c mf ins out : sorter_run c mf ins = Done out -> sorted_strictb (map fst out) = true.
 Proof. rewrite gsorter_run_stable. apply sorter_output_sorted. exact sort_entries_sorted. Qed.
+
+(* the sorter's output written through a writer (write_into_stream_writer) reads back as that output *)
+From Grenad.gen Require Import Consts.
+From Grenad.model Require Import Block Trailer Writer.
+From Grenad.proofs Require Import BlockProofs WriterStore WriterProgress ReaderRefine.
+
+Theorem sorter_into_writer c0 mf ins out compress decompress c :
+  sorter_run c0 mf ins = Done out ->
+  (forall b z, compress (wc_codec c) (wc_level c) b = Done z -> decompress (wc_codec c) z = Done b) ->
+  (forall b, exists z, compress (wc_codec c) (wc_level c) b = Done z) ->
+  wc_levels c < 256 -> 1 <= wc_interval c -> wc_codec c <= 5 ->
+  out <> [] -> entries_ok out -> len out + 1 <= U32_MAX ->
+  exists s lg m,
+    w_run_gen vsink vs_wr vs_fl vs_count compress c vs_empty out = (len out, Done (s, lg, m)) /\
+    (len (vs_bytes s) < 2^64 -> mem_ok lg ->
+     open_meta (vs_bytes s) = Done m /\ m_count m = len out /\
+     exists st rs, run_ops (load_block decompress (vs_bytes s) (m_codec m)) (m_root m) (m_levels m) cs_fresh
+                           (repeat ONext (S (length out))) = Done (st, rs) /\ rs = map Some out ++ [None]).
+Proof.
+  intros Hrun Hcodec Htotal HL Hint Hk Hne Hok Hlen.
+  pose proof (model_output_sorted c0 mf ins out Hrun) as Hsorted.
+  destruct (roundtrip_total compress decompress c Hcodec Htotal out HL Hint Hk Hne Hsorted Hok Hlen) as (s & lg & m & Hw & Hread).
+  exists s, lg, m. split; [exact Hw|]. intros H64 Hmem. destruct (Hread H64 Hmem) as (A & B & _ & Cc & _).
+  split; [exact A|]. split; [exact B|]. exact Cc.
+Qed.
